@@ -433,3 +433,49 @@ package gostatsd
 //@   trusted
 //@   modifies everything
 //@   preserves statsd.BackendHandler
+
+// ---- metric_consolidator.go (C15): slots are conserved ----------------------------------------------------------
+// A dispatch takes one map out of the consolidator, merges the batch into it and puts the same map back: at every
+// moment each of the `spots` maps is either in the channel or held by exactly one dispatcher.
+// slotOK: what every map kept in the consolidator satisfies (channel message invariant: assumed when a slot is taken,
+// proved when it is put back), and that it shares nothing with the batch being merged.
+//@ pred slotOK(m *MetricMap) := m != nil && allocated(m) && wfdCounters(m.Counters) && wfdGauges(m.Gauges) && wfdTimers(m.Timers) && wfdSets(m.Sets) && setsOK(m)
+//@ func (*MetricConsolidator).ReceiveMetricMap
+//@   floats real
+//@   requires mc != nil && mergeable(mm)
+//@   recvsite assumes [gostatsd.MetricMap] slotOK(val) && disjointC(val.Counters, mm.Counters) && disjointG(val.Gauges, mm.Gauges) && disjointT(val.Timers, mm.Timers) && disjointS(val.Sets, mm.Sets)
+//@   sendsite requires [gostatsd.MetricMap] slotOK(val)
+//@   callsite Merge requires mmFrom == mm && calls(Merge) == 0
+//@   sendsite requires [gostatsd.MetricMap] ch == mc.maps && val == lastreceived(mc.maps) && calls(Merge) == 1
+//@   ensures  received(mc.maps) == old(received(mc.maps)) + 1 && sent(mc.maps) == old(sent(mc.maps)) + 1 && calls(Merge) == 1
+//@   modifies everything
+//@   preserves gostatsd.MetricConsolidator
+//@ func (*MetricConsolidator).ReceiveMetrics
+//@   requires mc != nil
+//@   callsite Receive requires calls(Receive) == rangeindex
+//@   sendsite requires [gostatsd.MetricMap] ch == mc.maps && val == lastreceived(mc.maps) && calls(Receive) == len(metrics)
+//@   loop 1 invariant calls(Receive) == rangeindex + 1 && received(mc.maps) == old(received(mc.maps)) + 1 && sent(mc.maps) == old(sent(mc.maps)) && mmTo == lastreceived(mc.maps)
+//@   ensures  received(mc.maps) == old(received(mc.maps)) + 1 && sent(mc.maps) == old(sent(mc.maps)) + 1 && calls(Receive) == len(metrics)
+//@   modifies everything
+//@   preserves gostatsd.MetricConsolidator
+//@ func (*MetricMap).Receive
+//@   trusted
+//@   modifies everything
+//@   preserves gostatsd.MetricConsolidator
+// Fill puts exactly cap(mc.maps) fresh maps into the consolidator; Drain takes exactly that many out (or, when the
+// context ends first, puts back every map it took); Flush hands the drained maps to the sink once and refills.
+//@ func (*MetricConsolidator).Fill
+//@   requires mc != nil
+//@   sendsite requires [gostatsd.MetricMap] ch == mc.maps && slotOK(val) && fresh(val)
+//@   loop 1 invariant 0 <= i && i <= cap(mc.maps) && sent(mc.maps) == old(sent(mc.maps)) + i && mc.maps == old(mc.maps)
+//@   ensures  sent(mc.maps) == old(sent(mc.maps)) + cap(mc.maps)
+//@   modifies everything
+//@   preserves gostatsd.MetricConsolidator
+//@ func (*MetricConsolidator).DrainWithContext
+//@   requires mc != nil
+//@   loop 1 invariant 0 <= i && i <= cap(mc.maps) && received(mc.maps) == old(received(mc.maps)) + i && len(mms) == i && sent(mc.maps) == old(sent(mc.maps)) && mc.maps == old(mc.maps)
+//@   loop 2 invariant sent(mc.maps) == old(sent(mc.maps)) + rangeindex + 1 && received(mc.maps) == old(received(mc.maps)) + len(mms) && mc.maps == old(mc.maps)
+//@   ensures  result != nil ==> len(result) == cap(mc.maps) && received(mc.maps) == old(received(mc.maps)) + cap(mc.maps) && sent(mc.maps) == old(sent(mc.maps))
+//@   ensures  result == nil ==> sent(mc.maps) - old(sent(mc.maps)) == received(mc.maps) - old(received(mc.maps))
+//@   modifies everything
+//@   preserves gostatsd.MetricConsolidator
